@@ -57,6 +57,8 @@ type env struct {
 	answer    func(path string, body string)
 	continue1 func(path string) // answer the first Block1 block with 2.31
 	peerClose func()
+	// peerConnClose: the peer closes THIS connection (server-side Close of the per-peer connection: FIN / close_notify)
+	peerConnClose func()
 	stall     func() // stream: the peer stops reading
 	cleanup   func()
 	closeCnt  [3]atomic.Int32
@@ -186,6 +188,8 @@ func newMemEnv(c ccase, limit int64, nstart uint32) (*env, error) {
 // ---------------------------------------------------------------- loopback sockets
 
 type sockServer struct {
+	conns   sync.Map // server-side connections seen by the handler
+
 	srv     *netenv.Server
 	mu      sync.Mutex
 	seenCh  map[string]chan struct{}
@@ -228,6 +232,7 @@ func newSockServer(kind string) (*sockServer, error) {
 	r := mux.NewRouter()
 	r.DefaultHandle(mux.HandlerFunc(func(w mux.ResponseWriter, m *mux.Message) {
 		path, _ := m.Options().Path()
+		ss.conns.Store(w.Conn(), true)
 		ss.mark(path)
 		switch {
 		case strings.HasPrefix(path, "/hang"):
@@ -288,6 +293,19 @@ func newSockEnv(c ccase, limit int64, nstart uint32) (*env, error) {
 		ss.srv.Stop()
 	}
 	e.peerClose = stop
+	e.peerConnClose = func() {
+		select {
+		case <-ss.release:
+		default:
+			// handlers parked in "/hang" stay parked: the peer connection is closed under them
+		}
+		ss.conns.Range(func(k, _ any) bool {
+			if c, ok := k.(interface{ Close() error }); ok {
+				_ = c.Close()
+			}
+			return true
+		})
+	}
 	e.cleanup = func() {
 		stop()
 		select {
@@ -475,6 +493,10 @@ func runCase(rec *vr.Rec, c ccase) {
 				n = 1
 			}
 			closeBounded(rec, e, c, n, true)
+		case "peer-conn-close":
+			if e.peerConnClose != nil {
+				e.peerConnClose()
+			}
 		case "peer-close", "stop":
 			e.peerClose()
 		}
@@ -510,7 +532,22 @@ func runCase(rec *vr.Rec, c ccase) {
 		act()
 	}
 	done := make(chan error, 1)
-	go func() { done <- runOp(e, ctx, c.Op) }()
+	// an on-close callback that waits (bounded) for the connection's users, as applications do: by the time on-close
+	// callbacks run the connection context is cancelled, so a blocked operation is already on its way out
+	opReturned := make(chan struct{})
+	var opStarted, blockedAtOnClose atomic.Bool
+	e.cc.AddOnClose(func() {
+		if !opStarted.Load() {
+			return
+		}
+		select {
+		case <-opReturned:
+		case <-time.After(3 * time.Second):
+			blockedAtOnClose.Store(true)
+		}
+	})
+	opStarted.Store(true)
+	go func() { err := runOp(e, ctx, c.Op); close(opReturned); done <- err }()
 	reached := true
 	switch c.Point {
 	case "after-send":
@@ -553,6 +590,10 @@ func runCase(rec *vr.Rec, c ccase) {
 	case <-done:
 		rec.Count("operations_returned_after_action", 1)
 		rec.Max("max_return_latency_us", time.Since(t0).Microseconds())
+		if blockedAtOnClose.Load() {
+			rec.Violation(fmt.Sprintf("C09/%s/%s/released-only-after-on-close-callbacks", strings.TrimSuffix(c.Transport, "-mem"), c.Op), fmt.Sprintf("%s at point %s, action %s: the connection was closed and its on-close callbacks ran, but the blocked call was still blocked 3 s later; it returned only after the callbacks had finished (an on-close callback that waits for the connection's users deadlocks)", c.Op, c.Point, c.Action), c)
+			return
+		}
 	case <-time.After(watchdog):
 		// second stage: is the call parked inside the library?
 		if stackOf("client.(*Conn).doInternal", "client.(*Conn).waitForAcknowledge", "observation.(*Handler", "client.(*Client[", "limitParallelRequests", "net.(*Conn).WriteWithContext", "acquireOutstandingInteraction") {
@@ -630,6 +671,11 @@ func TestRun(t *testing.T) {
 				// stopped dtls server is a silent peer as well)
 				if tr != "udp-mem" && tr != "udp" && tr != "dtls" {
 					actions = append(actions, "peer-close")
+				}
+				// the peer closes this very connection (server-side Close: FIN on streams, close_notify on dtls) once it
+				// has seen the request
+				if (tr == "dtls" || tr == "tcp" || tr == "tls") && (pt == "after-send" || pt == "after-ack") && op != "observe-cancel" {
+					actions = append(actions, "peer-conn-close")
 				}
 				for _, ac := range actions {
 					peers := []string{"silent"}
